@@ -24,7 +24,10 @@ RAbs(a) == [a EXCEPT !.s = IF a.s = 0 THEN 0 ELSE 1]
 
 RAdd(a, b) ==
   IF a.s = 0 THEN b ELSE IF b.s = 0 THEN a ELSE
-  LET x == BMul(a.n, b.d)  y == BMul(b.n, a.d)  dd == BMul(a.d, b.d) IN
+  LET same == a.d = b.d          \* common denominator: keep it (sums of many terms stay small)
+      x == IF same THEN a.n ELSE BMul(a.n, b.d)
+      y == IF same THEN b.n ELSE BMul(b.n, a.d)
+      dd == IF same THEN a.d ELSE BMul(a.d, b.d) IN
   IF a.s = b.s THEN RMk(a.s, BAdd(x, y), dd)
   ELSE LET c == BCmp(x, y) IN
        IF c = 0 THEN [s |-> 0, n |-> BZero, d |-> dd]
